@@ -46,3 +46,31 @@ pub mod pub_c10_dtls;
 
 #[path = "int_c10_dtls.rs"]
 pub mod int_c10_dtls;
+
+#[path = "pub_c13_kx.rs"]
+pub mod pub_c13_kx;
+
+#[path = "pub_c14_sct.rs"]
+pub mod pub_c14_sct;
+
+#[path = "pub_c17_consts.rs"]
+pub mod pub_c17_consts;
+
+#[path = "pub_c17_registry.rs"]
+pub mod pub_c17_registry;
+
+#[path = "pub_c15_accessors.rs"]
+pub mod pub_c15_accessors;
+
+#[path = "pub_c12_rows.rs"]
+pub mod pub_c12_rows;
+
+#[path = "pub_c12_ciphers.rs"]
+pub mod pub_c12_ciphers;
+
+#[cfg(feature = "serialize")]
+#[path = "ser_c09.rs"]
+pub mod ser_c09;
+
+#[path = "pub_c06_local.rs"]
+pub mod pub_c06_local;
